@@ -13,6 +13,7 @@
  R5 ErrorMapper tables (in_progress / addr_in_use / probe_failed) and their presence on the TCP bind / connect chains (v4 and v6).
  C07.R3 (imported) the capacity test behind InsufficientCapacity is sequence − round_sequence < BUFFER_SIZE, so the re-issue loop ends with that
     error instead of indexing past the round buffer (a panic would surface neither as a returned error nor in the shared state).
+ C06.R2 (imported): the ttl effects of issuing and re-issuing a probe — a re-issued TCP probe keeps the ttl of the abandoned one.
 Not decided: which OS errors ought to be transient; exhaustive fault sequences (rules are per-step and cover every step once).
 """
 import re
